@@ -1,6 +1,7 @@
 import reprlib
 import sys
-from collections.abc import MutableSequence, MutableSet, Sequence
+from collections.abc import Iterable as IterableABC
+from collections.abc import MutableSequence, MutableSet, Sequence, Set
 from typing import Any, Callable, Generic, Iterable, Optional, Tuple, Type, TypeVar
 
 from spec_classes.errors import BaseTypeError
@@ -333,7 +334,9 @@ class KeyedSet(Generic[ItemType, KeyType], MutableSet, KeyedBase):  # pylint: di
                     or self.enforce_item_equivalence
                     and item_or_key == self._dict[key]
                 )
-        except TypeError:
+        except (TypeError, AttributeError):
+            # (what cannot be keyed - e.g. a key that is not present, handed to a
+            # key function that reads an attribute - is not an item of this set)
             pass
         return False
 
@@ -372,7 +375,7 @@ class KeyedSet(Generic[ItemType, KeyType], MutableSet, KeyedBase):  # pylint: di
                 and value == self._dict[key]
             ):
                 del self._dict[key]
-        except TypeError:
+        except (TypeError, AttributeError):
             pass
 
     def _from_iterable(self, it):  # pylint: disable=arguments-differ
@@ -383,6 +386,43 @@ class KeyedSet(Generic[ItemType, KeyType], MutableSet, KeyedBase):  # pylint: di
         )
 
     # Magic methods
+
+    @staticmethod
+    def _is_member(container, value):
+        # Items need not be hashable (only their keys), and an unhashable item
+        # is not a member of a builtin set.
+        try:
+            return value in container
+        except TypeError:
+            return False
+
+    def __sub__(self, other):
+        # As `-=` (and `&`): items are identified by key, whatever kind of set
+        # the other operand is.
+        if not isinstance(other, IterableABC):
+            return NotImplemented
+        result = self._from_iterable(self)
+        result -= other
+        return result
+
+    def __xor__(self, other):
+        if not isinstance(other, IterableABC):
+            return NotImplemented
+        result = self._from_iterable(self)
+        result ^= other if isinstance(other, Set) else self._from_iterable(other)
+        return result
+
+    def __le__(self, other):
+        if not isinstance(other, Set):
+            return NotImplemented
+        if len(self) > len(other):
+            return False
+        return all(self._is_member(other, value) for value in self)
+
+    def __lt__(self, other):
+        if not isinstance(other, Set):
+            return NotImplemented
+        return len(self) < len(other) and self.__le__(other)
 
     def __eq__(self, other):
         # NOTE: We do not implement equality against other object types (like
